@@ -4,6 +4,7 @@
   classification the check uses for the clause "undefined where the formula has no real solution".
 -/
 import Mathlib.Analysis.SpecialFunctions.Trigonometric.DerivHyp
+import Mathlib.Analysis.Calculus.Deriv.MeanValue
 
 namespace PV
 open Real
@@ -41,6 +42,106 @@ theorem c15_cosh_ratio_mid (m a : ℝ) : cosh (m * (-a)) / cosh (m * a) = 1 := b
 
 theorem c15_sinh_ratio_mid (m a : ℝ) (h : sinh (m * a) ≠ 0) : sinh (m * (-a)) / sinh (m * a) = -1 := by
   rw [mul_neg, sinh_neg, neg_div, div_self h]
+
+/-! ### the sinh variant: the ratio stays on one side of its m -> 0 limit a / b -/
+
+/-- g(m) = a sinh(m b) - b sinh(m a) is strictly increasing on [0, ∞) for 0 < a < b -/
+theorem sinh_gap_strictMono (a b : ℝ) (ha : 0 < a) (hab : a < b) :
+    StrictMonoOn (fun m : ℝ => a * sinh (m * b) - b * sinh (m * a)) (Set.Ici 0) := by
+  have hd : ∀ m : ℝ, HasDerivAt (fun m : ℝ => a * sinh (m * b) - b * sinh (m * a))
+      (a * (cosh (m * b) * b) - b * (cosh (m * a) * a)) m := by
+    intro m
+    have h1 : HasDerivAt (fun m : ℝ => m * b) b m := by simpa using (hasDerivAt_id m).mul_const b
+    have h2 : HasDerivAt (fun m : ℝ => m * a) a m := by simpa using (hasDerivAt_id m).mul_const a
+    exact ((h1.sinh).const_mul a).sub ((h2.sinh).const_mul b)
+  apply strictMonoOn_of_deriv_pos (convex_Ici 0)
+  · exact (continuous_iff_continuousAt.mpr (fun m => (hd m).continuousAt)).continuousOn
+  · intro m hm
+    rw [interior_Ici] at hm
+    have hm0 : 0 < m := hm
+    rw [(hd m).deriv]
+    have hc : cosh (m * a) < cosh (m * b) := by
+      rw [cosh_lt_cosh, abs_of_pos (mul_pos hm0 ha), abs_of_pos (mul_pos hm0 (ha.trans hab))]
+      exact mul_lt_mul_of_pos_left hab hm0
+    have : a * (cosh (m * b) * b) - b * (cosh (m * a) * a) = a * b * (cosh (m * b) - cosh (m * a)) := by ring
+    rw [this]
+    exact mul_pos (mul_pos ha (ha.trans hab)) (sub_pos.mpr hc)
+
+/-- for 0 < a < b and m > 0: sinh(m a) / sinh(m b) < a / b -/
+theorem sinh_ratio_lt (a b m : ℝ) (ha : 0 < a) (hab : a < b) (hm : 0 < m) :
+    sinh (m * a) / sinh (m * b) < a / b := by
+  have hb : 0 < b := ha.trans hab
+  have hs : 0 < sinh (m * b) := sinh_pos_iff.mpr (mul_pos hm hb)
+  have h := sinh_gap_strictMono a b ha hab (Set.mem_Ici.mpr le_rfl) (Set.mem_Ici.mpr hm.le) hm
+  simp only [zero_mul, sinh_zero, mul_zero, sub_self] at h
+  rw [div_lt_div_iff₀ hs hb]
+  linarith
+
+
+theorem sinh_ratio_neg_m (a b m : ℝ) : sinh (-m * a) / sinh (-m * b) = sinh (m * a) / sinh (m * b) := by
+  rw [neg_mul, neg_mul, sinh_neg, sinh_neg, neg_div_neg_eq]
+
+/-- second half of the lattice (0 < a < b): the sinh ratio stays below its m -> 0 limit a / b for every m ≠ 0 -/
+theorem sinh_ratio_lt' (a b m : ℝ) (ha : 0 < a) (hab : a < b) (hm : m ≠ 0) :
+    sinh (m * a) / sinh (m * b) < a / b := by
+  rcases lt_or_gt_of_ne hm with h | h
+  · have := sinh_ratio_lt a b (-m) ha hab (by linarith)
+    rwa [sinh_ratio_neg_m] at this
+  · exact sinh_ratio_lt a b m ha hab h
+
+theorem c15_sinh_no_solution_second_half (a b rv : ℝ) (ha : 0 < a) (hab : a < b) (hr : a / b < rv) :
+    ∀ m : ℝ, m ≠ 0 → sinh (m * a) / sinh (m * b) ≠ rv := by
+  intro m hm h
+  have := sinh_ratio_lt' a b m ha hab hm
+  linarith
+
+/-- first half (a < b < 0): the ratio stays above a / b -/
+theorem c15_sinh_no_solution_first_half (a b rv : ℝ) (hb : b < 0) (hab : a < b) (hr : rv < a / b) :
+    ∀ m : ℝ, m ≠ 0 → sinh (m * a) / sinh (m * b) ≠ rv := by
+  intro m hm h
+  -- with a' = -b, b' = -a: 0 < a' < b' and sinh(m a)/sinh(m b) = 1 / (sinh(m a')/sinh(m b'))
+  have ha' : 0 < -b := by linarith
+  have hab' : -b < -a := by linarith
+  have hlt := sinh_ratio_lt' (-b) (-a) m ha' hab' hm
+  have e1 : sinh (m * -b) = -sinh (m * b) := by rw [mul_neg, sinh_neg]
+  have e2 : sinh (m * -a) = -sinh (m * a) := by rw [mul_neg, sinh_neg]
+  rw [e1, e2, neg_div_neg_eq, neg_div_neg_eq] at hlt
+  -- hlt : sinh (m b) / sinh (m a) < b / a
+  have hsa : sinh (m * a) ≠ 0 := by
+    intro h0
+    have : m * a = 0 := sinh_eq_zero.mp h0
+    rcases mul_eq_zero.mp this with h1 | h1
+    · exact hm h1
+    · linarith
+  have hsb : sinh (m * b) ≠ 0 := by
+    intro h0
+    have : m * b = 0 := sinh_eq_zero.mp h0
+    rcases mul_eq_zero.mp this with h1 | h1
+    · exact hm h1
+    · linarith
+  have hpos : 0 < sinh (m * a) / sinh (m * b) := by
+    rcases lt_or_gt_of_ne hm with hneg | hposm
+    · have h1 : 0 < sinh (m * a) := sinh_pos_iff.mpr (mul_pos_of_neg_of_neg hneg (by linarith))
+      have h2 : 0 < sinh (m * b) := sinh_pos_iff.mpr (mul_pos_of_neg_of_neg hneg hb)
+      exact div_pos h1 h2
+    · have h1 : sinh (m * a) < 0 := sinh_neg_iff.mpr (mul_neg_of_pos_of_neg hposm (by linarith))
+      have h2 : sinh (m * b) < 0 := sinh_neg_iff.mpr (mul_neg_of_pos_of_neg hposm hb)
+      exact div_pos_of_neg_of_neg h1 h2
+  have hab_pos : 0 < a / b := div_pos_of_neg_of_neg (by linarith) hb
+  -- invert: x := sinh(ma)/sinh(mb) > 0, 1/x < b/a  =>  x > a/b
+  have hinv : sinh (m * b) / sinh (m * a) = (sinh (m * a) / sinh (m * b))⁻¹ := by rw [inv_div]
+  have hba : b / a = (a / b)⁻¹ := by rw [inv_div]
+  rw [hinv, hba] at hlt
+  have := (inv_lt_inv₀ hpos hab_pos).mp hlt
+  linarith
+
+/-- **C15 (sinh variant, summary).**  In the second half of the lattice (0 < a < b) no real mass m ≠ 0 gives a ratio above
+    a / b, in the first half (a < b < 0) none gives a ratio below a / b: the timeslice has to be undefined there. -/
+theorem c15_sinh_no_solution (a b rv : ℝ) (h : (0 < a ∧ a < b ∧ a / b < rv) ∨ (b < 0 ∧ a < b ∧ rv < a / b)) :
+    ∀ m : ℝ, m ≠ 0 → sinh (m * a) / sinh (m * b) ≠ rv := by
+  rcases h with ⟨h1, h2, h3⟩ | ⟨h1, h2, h3⟩
+  · exact c15_sinh_no_solution_second_half a b rv h1 h2 h3
+  · exact c15_sinh_no_solution_first_half a b rv h1 h2 h3
 
 /-- non-vacuity: T = 8, t = 2 (a = -2, b = -1) with a ratio below 1, and the mid slice of T = 9 -/
 example : |(-1 : ℝ)| ≤ |(-2 : ℝ)| ∧ (0.9 : ℝ) < 1 := by norm_num
